@@ -109,7 +109,13 @@ theorem parseAuxFuel_ne_fuel : ∀ (fuel : Nat) (rest : List Byte) (acc : List (
             · simp
             · split
               · simp
-              · apply ih; simp only [List.length_drop, List.length_cons]; omega
+              · split
+                · split
+                  · rename_i hd
+                    intro hc; cases hc
+                    rcases decodeHex_err _ _ hd with h' | h' <;> cases h'
+                  · apply ih; simp only [List.length_drop, List.length_cons]; omega
+                · apply ih; simp only [List.length_drop, List.length_cons]; omega
           · split
             · rename_i sub n0 n1 n2 n3 tl
               split
@@ -223,51 +229,39 @@ theorem readAll_ne_fuel (om : Omit) (n : Nat) (s : List Byte) : (readAll om n s)
 
 end Hts.Model.Bam
 
-/-! ### the whole file: header (an external codec, C07) followed by the records -/
+/-! ### the whole file: the header section followed by the records
+
+The binary header (C07) is not modelled here.  What the file theorems need of it is stated as a HYPOTHESIS about the
+one header at hand, not as a law for all headers: `HeaderFramed decode bytes hd` — on the header's bytes followed by
+any data the header decoder returns `hd` and leaves exactly that data.  (C07 proves, in its own model and for API-built
+headers with canonical URIs, that decoding the encoded header gives a header with the same exposed values; that the
+decoder stops exactly at the end of the header section is not proved anywhere — `DecodeBinary` reads the counted
+fields and nothing more, checked by the C05 correspondence on every generated file.) -/
 namespace Hts.Model.Bam
 
-/-- The binary header codec as a parameter bundled with the law assumed of it (C07 proves it for the real one):
-decoding an encoded header in front of any data returns the header and leaves the data. `nrefs` is the length of the
-reference list that `Ref`/`MateRef` ids index into. -/
-structure HeaderCodec (H : Type) where
-  encode : H → List Byte
-  decode : List Byte → Option (H × List Byte)
-  nrefs : H → Nat
-  decode_encode : ∀ (h : H) (rest : List Byte), decode (encode h ++ rest) = some (h, rest)
+/-- on `bytes` followed by any data the header decoder returns `hd` and leaves the data -/
+def HeaderFramed {H : Type} (decode : List Byte → Option (H × List Byte)) (bytes : List Byte) (hd : H) : Prop :=
+  ∀ rest : List Byte, decode (bytes ++ rest) = some (hd, rest)
 
-/-- `NewWriter(h)`, `Write` for every record, under the BGZF layer -/
-def writeFile {H : Type} (hc : HeaderCodec H) (h : H) (rs : List Record) : Except Fault (List Byte) :=
+/-- `NewWriter(h)`, `Write` for every record: the bytes under the BGZF layer, given the header section's bytes -/
+def writeFile (hdrBytes : List Byte) (rs : List Record) : Except Fault (List Byte) :=
   match encodeAll rs with
   | .error f => .error f
-  | .ok s => .ok (hc.encode h ++ s)
+  | .ok s => .ok (hdrBytes ++ s)
 
 /-- `NewReader`, `Omit(om)`, `Read` until it fails: the header, the records, how it ended (`none` = io.EOF) -/
-def readFile {H : Type} (hc : HeaderCodec H) (om : Omit) (bytes : List Byte) :
-    Option (H × List Record × Option Fault) :=
-  match hc.decode bytes with
+def readFile {H : Type} (decode : List Byte → Option (H × List Byte)) (nrefs : H → Nat) (om : Omit)
+    (bytes : List Byte) : Option (H × List Record × Option Fault) :=
+  match decode bytes with
   | none => none
-  | some (h, rest) => some (h, readAll om (hc.nrefs h) rest)
+  | some (h, rest) => some (h, readAll om (nrefs h) rest)
 
-theorem readFile_writeFile {H : Type} (hc : HeaderCodec H) (om : Omit) (h : H) (rs : List Record)
-    (hwf : ∀ r ∈ rs, WF (hc.nrefs h) r) :
-    ∃ bytes, writeFile hc h rs = .ok bytes ∧
-      readFile hc om bytes = some (h, rs.map (expected om), none) := by
+theorem readFile_writeFile {H : Type} (decode : List Byte → Option (H × List Byte)) (nrefs : H → Nat)
+    (hdrBytes : List Byte) (hd : H) (hf : HeaderFramed decode hdrBytes hd) (om : Omit) (rs : List Record)
+    (hwf : ∀ r ∈ rs, WF (nrefs hd) r) :
+    ∃ bytes, writeFile hdrBytes rs = .ok bytes ∧
+      readFile decode nrefs om bytes = some (hd, rs.map (expected om), none) := by
   obtain ⟨s, hs, hr⟩ := readAll_encodeAll om rs hwf
-  exact ⟨hc.encode h ++ s, by simp [writeFile, hs], by simp [readFile, hc.decode_encode, hr]⟩
-
-/-- The BGZF layer as a parameter bundled with the law assumed of it (C01 proves it for the real one): for every
-write concurrency `wc` and read concurrency `rd`, reading what was written gives back the bytes written, whatever
-the way they were cut into `Write` calls and blocks. -/
-structure BgzfCodec where
-  write : (wc : Nat) → List Byte → List Byte
-  read : (rd : Nat) → List Byte → Option (List Byte)
-  read_write : ∀ (wc rd : Nat) (bs : List Byte), read rd (write wc bs) = some bs
-
-theorem readFile_writeFile_bgzf {H : Type} (bg : BgzfCodec) (hc : HeaderCodec H) (om : Omit) (wc rd : Nat) (h : H)
-    (rs : List Record) (hwf : ∀ r ∈ rs, WF (hc.nrefs h) r) :
-    ∃ bytes, writeFile hc h rs = .ok bytes ∧
-      (bg.read rd (bg.write wc bytes)).bind (readFile hc om) = some (h, rs.map (expected om), none) := by
-  obtain ⟨bytes, hw, hr⟩ := readFile_writeFile hc om h rs hwf
-  exact ⟨bytes, hw, by simp [bg.read_write, hr]⟩
+  exact ⟨hdrBytes ++ s, by simp [writeFile, hs], by simp [readFile, hf s, hr]⟩
 
 end Hts.Model.Bam
